@@ -583,6 +583,63 @@ def _union_structure_guard(base, file):
     raise T1Unrecognised(file, nb[0].lineno, f"_gen_attrs_union_structure: None guard `{test}`")
 
 
+def translate_latebinding(repo: Path):
+    """gen/__init__.py, gen/typeddicts.py: what the unstructure generators bind when the attribute's hook cannot be generated because of
+    a reference cycle (`except RecursionError:`): a call that keeps the declared type (late_unstructure_handler(t, converter) ->
+    converter.unstructure(v, unstructure_as=t)) or converter.unstructure (dispatch on the class of the value)"""
+    def handlers(file, fname):
+        mod = ast.parse((repo / file).read_text())
+        fn = [n for n in mod.body if isinstance(n, ast.FunctionDef) and n.name == fname]
+        if len(fn) != 1:
+            raise T1Unrecognised(file, 0, f"{fname} not found")
+        out = []
+        for n in ast.walk(fn[0]):
+            if isinstance(n, ast.ExceptHandler) and n.type is not None and _src(n.type) == "RecursionError":
+                body = [_src(x) for x in _strip_doc(n.body)]
+                if body == ["handler = converter.unstructure"]:
+                    out.append(False)
+                elif body == ["handler = late_unstructure_handler(t, converter)"]:
+                    out.append(True)
+                else:
+                    raise T1Unrecognised(file, n.lineno, f"{fname}: late binding of an attribute is `{'; '.join(body)}`")
+        if not out:
+            raise T1Unrecognised(file, fn[0].lineno, f"{fname}: no `except RecursionError` around the attribute hook lookup")
+        return out
+    gen = handlers("src/cattrs/gen/__init__.py", "make_dict_unstructure_fn_from_attrs")
+    td = handlers("src/cattrs/gen/typeddicts.py", "make_dict_unstructure_fn")
+    by_decl = all(gen)
+    if by_decl:
+        file = "src/cattrs/gen/_shared.py"
+        mod = ast.parse((repo / file).read_text())
+        fn = [n for n in mod.body if isinstance(n, ast.FunctionDef) and n.name == "late_unstructure_handler"]
+        if len(fn) != 1:
+            raise T1Unrecognised(file, 0, "late_unstructure_handler not found")
+        inner = [n for n in _strip_doc(fn[0].body) if isinstance(n, ast.FunctionDef)]
+        rets = [_src(x) for x in _strip_doc(fn[0].body) if isinstance(x, ast.Return)]
+        if len(inner) != 1 or rets != [f"return {inner[0].name}"]:
+            raise T1Unrecognised(file, fn[0].lineno, "late_unstructure_handler: expected one closure, returned")
+        a = fn[0].args.args
+        body = [_src(x) for x in _strip_doc(inner[0].body)]
+        ia = inner[0].args
+        defaults = {x.arg: _src(d) for x, d in zip(ia.args[len(ia.args) - len(ia.defaults):], ia.defaults)}
+        val = ia.args[0].arg
+        ok = False
+        for cn, tn in [(c_, t_) for c_ in defaults for t_ in defaults if c_ != t_]:
+            if body == [f"return {cn}.unstructure({val}, unstructure_as={tn})"] and defaults[tn] == a[0].arg and defaults[cn] == a[1].arg:
+                ok = True
+        if not ok:
+            raise T1Unrecognised(file, inner[0].lineno, "late_unstructure_handler: the closure is not `return c.unstructure(val, unstructure_as=type)`")
+    return {"gen_by_declared": by_decl, "td_by_declared": all(td)}
+
+
+def emit_latebinding(l) -> str:
+    return ("(* GENERATED by harness/t1_translate.py from src/cattrs/gen/__init__.py, gen/_shared.py, gen/typeddicts.py -- do not edit *)\n"
+            "(* the unstructure handler bound when a reference cycle prevents generating the attribute's hook: keeps the declared type (true) /\n"
+            "   converter.unstructure, dispatching on the class of the value (false) *)\n"
+            f"Definition src_late_unstructure_by_declared : bool := {_coq_bool(l['gen_by_declared'])}.\n"
+            f"Definition src_td_late_unstructure_by_declared : bool := {_coq_bool(l['td_by_declared'])}.\n")
+
+
 def emit_converters(cv, dcfg) -> str:
     L = ["(* GENERATED by harness/t1_translate.py from src/cattrs/converters.py -- do not edit *)",
          "From V.Model Require Import Base Dispatch Routing."]
@@ -1204,6 +1261,15 @@ def main():
         summary["ok"] = False
         summary["errors"].append(str(e))
         summary["sections"]["subclasses"] = False
+    try:
+        lb = translate_latebinding(repo)
+        write("LateSrc.v", emit_latebinding(lb))
+        summary["latebinding"] = lb
+        summary["sections"]["latebinding"] = True
+    except T1Unrecognised as e:
+        summary["ok"] = False
+        summary["errors"].append(str(e))
+        summary["sections"]["latebinding"] = False
     try:
         us = translate_unionstruct(repo)
         write("UStructSrc.v", emit_unionstruct(us))
